@@ -57,6 +57,12 @@ func genCase(maxOps int) func(t *rapid.T) Case {
 				live++
 				continue
 			}
+			if rapid.IntRange(0, 99).Draw(t, "chain") == 57 {
+				// a long chain of clones of clones, each with a token of its own; only the last one is kept
+				c.Ops = append(c.Ops, Op{Kind: "clonechain", Target: rapid.IntRange(0, live-1).Draw(t, "target"), N: rapid.SampledFrom([]int{20, 64, 99, 100, 101, 130}).Draw(t, "chainlen")})
+				live++
+				continue
+			}
 			if live > 1 && rapid.IntRange(0, 7).Draw(t, "addstmt") == 0 {
 				c.Ops = append(c.Ops, Op{Kind: "addstmt", Target: rapid.IntRange(0, live-1).Draw(t, "target"), Arg: rapid.IntRange(0, live-1).Draw(t, "arg")})
 				continue
@@ -395,6 +401,17 @@ func check(c Case) error {
 			list = append(list, &st{s: cl, parent: i, snap: atClone})
 			pf.Add(jen.Id("ZZSEP"))
 			pf.Add(cl)
+		case "clonechain":
+			at := snapU(i)
+			cur := list[i].s
+			var own []string
+			for k := 0; k < op.N; k++ {
+				cur = cur.Clone()
+				own = append(own, apply(cur, "dot", 0)...)
+			}
+			list = append(list, &st{s: cur, parent: i, snap: at, own: own})
+			pf.Add(jen.Id("ZZSEP"))
+			pf.Add(cur)
 		case "addstmt":
 			j := op.Arg % len(list)
 			seen := map[int]bool{}
@@ -426,7 +443,7 @@ func classify(r *hx.Run, c Case) {
 	lastSide := map[int]int{}
 	for _, op := range c.Ops {
 		i := op.Target % len(lens)
-		if op.Kind == "clone" || op.Kind == "doclone" {
+		if op.Kind == "clone" || op.Kind == "doclone" || op.Kind == "clonechain" {
 			infos = append(infos, info{i, infos[i].depth + 1, lens[i]})
 			lens = append(lens, lens[i])
 			if infos[len(infos)-1].depth > maxDepth {
@@ -470,6 +487,11 @@ func classify(r *hx.Run, c Case) {
 		}
 	}
 	for _, op := range c.Ops {
+		if op.Kind == "clonechain" {
+			r.Class(fmt.Sprintf("clone_chain_of_%d", op.N))
+		}
+	}
+	for _, op := range c.Ops {
 		if op.Kind == "addstmt" {
 			r.Class("statement_added_to_statement")
 			break
@@ -493,7 +515,7 @@ func classify(r *hx.Run, c Case) {
 func TestC20(t *testing.T) {
 	r := hx.Start(t, "C20")
 	defer r.Finish(t)
-	r.Rule("rapid-generated histories of append/clone operations (appends via Id, Op, Lit, Dot, Call, Index, Qual, Tag, Case+Block, Default+Block, Add with 0..9 items, Add of another statement of the history; clones also taken of the callback parameter inside Do, with appends before and after in the callback; every statement is rendered on its own through a fresh File and, as a line of one File that holds all statements and is rendered after every step); non-trivial = the history has a clone taken when its original had >= 3 items, followed by appends to both the original and that clone; distinct by the full history")
+	r.Rule("rapid-generated histories of append/clone operations (appends via Id, Op, Lit, Dot, Call, Index, Qual, Tag, Case+Block, Default+Block, Add with 0..9 items, Add of another statement of the history; chains of 20..130 clones of clones; clones also taken of the callback parameter inside Do, with appends before and after in the callback; every statement is rendered on its own through a fresh File and, as a line of one File that holds all statements and is rendered after every step); non-trivial = the history has a clone taken when its original had >= 3 items, followed by appends to both the original and that clone; distinct by the full history")
 	r.Assume("go/scanner token stream of a NoFormat File render is taken as 'the rendering' of a statement")
 	maxOps := 60
 	if r.Thorough() {
